@@ -1258,7 +1258,10 @@ where
     );
     kawa.parsing_phase = match kawa.body_size {
         BodySize::Chunked => ParsingPhase::Chunks { first: true },
-        BodySize::Length(0) => ParsingPhase::Terminated,
+        // An H2 message ends with END_STREAM, not when its declared length is
+        // met: after `content-length: 0` the peer still sends an empty DATA
+        // frame or trailers to carry the flag.
+        BodySize::Length(0) if end_stream => ParsingPhase::Terminated,
         BodySize::Length(_) => ParsingPhase::Body,
         BodySize::Empty => ParsingPhase::Chunks { first: true },
     };
